@@ -56,7 +56,7 @@ class Prop(BaseProp):
             os.makedirs(home)
             if home_has_cfg:
                 os.makedirs(os.path.join(home, ".config", "cminx"))
-            tree = gen_tree(rng, max_depth=rng.choice([0, 1, 3]), rich=True)
+            tree = gen_tree(rng, max_depth=rng.choice([0, 1, 3]), rich=True, case_twins=rng.random() < 0.3)
             tree.write(inp)
             os.makedirs(os.path.join(sb, "elsewhere"))
             with open(os.path.join(sb, "elsewhere", "bystander.txt"), "w") as f:
@@ -81,7 +81,7 @@ class Prop(BaseProp):
             base = [target] + (["-r"] if (recursive and not single) else []) + ["-s", cfg] + (["-p", prefix] if prefix else [])
             out_arg = out_abs if outmode in ("abs", "prepopulated", "parent") else os.path.relpath(out_abs, work)
             # ---------- run 1: stdout mode (must not write anything)
-            fr0 = fsrun.run_monitored(sb, base, work, home, order=None, snapshot_root=sb)
+            fr0 = fsrun.run_monitored(sb, base, work, home, order=fsrun.make_order(rng, rng.choice(fsrun.ORDER_MODES[:4])), snapshot_root=sb)
             res.count("runs_stdout")
             wit = {"argv": base, "outmode": outmode, "home_has_cfg": home_has_cfg, "tree_files": sorted(tree.files)}
             if not fr0.outcome.ok:
@@ -91,7 +91,7 @@ class Prop(BaseProp):
             os.makedirs(os.path.join(home, ".config", "cminx"), exist_ok=True) if False else None
             # ---------- run 2: -o
             home_state = os.path.isdir(os.path.join(home, ".config", "cminx"))
-            fr = fsrun.run_monitored(sb, base + ["-o", out_arg], work, home, order=None, snapshot_root=sb)
+            fr = fsrun.run_monitored(sb, base + ["-o", out_arg], work, home, order=fsrun.make_order(rng, rng.choice(fsrun.ORDER_MODES[:4])), snapshot_root=sb)
             res.count("runs_with_output_dir")
             wit2 = dict(wit, argv=base + ["-o", out_arg])
             if not fr.outcome.ok:
